@@ -432,7 +432,7 @@ func c18Run(c *Ctx) {
 	// (a) trees
 	maxFiles := 3
 	if c.Thorough() {
-		maxFiles = 4
+		maxFiles = 5
 	}
 	n := len(c18Candidates)
 	var rec func(start int, cur []int) bool
@@ -485,7 +485,7 @@ func init() {
 				}
 			}
 			if tier == "thorough" {
-				return map[string]any{"files_per_tree": 4, "candidates": len(c18Candidates), "extensions": len(c18Exts), "spellings": len(c18Spellings), "fault_cases": nf, "four_file_trees": "one third of the ext x spelling combinations"}
+				return map[string]any{"files_per_tree": 5, "candidates": len(c18Candidates), "extensions": len(c18Exts), "spellings": len(c18Spellings), "fault_cases": nf, "five_file_trees": "one third of the ext x spelling combinations"}
 			}
 			return map[string]any{"files_per_tree": 3, "candidates": len(c18Candidates), "extensions": len(c18Exts), "spellings": len(c18Spellings), "fault_cases": nf, "three_file_trees": "one third of the ext x spelling combinations"}
 		},
